@@ -70,6 +70,7 @@ type State struct {
 	Li []int    `json:"li"`
 	Fl []Flight `json:"fl"`
 	Up []int    `json:"up"` // endpoints whose server listens (absent in behaviours recorded before faults were modelled: all)
+	Rg []int    `json:"rg"` // the registry's active list as installed in the manager (absent in behaviours recorded before refreshes were modelled: not compared)
 }
 
 type Step struct {
@@ -79,17 +80,23 @@ type Step struct {
 	K     string `json:"k"`
 	Ok    bool   `json:"ok"`
 	D     int    `json:"d"`
-	Cands []int  `json:"cands"`
+	Cands []int  `json:"cands"` // Select / Refused: the endpoints the model allows; Refresh: the active list of the registry's answer
+	Ina   []int  `json:"ina"`   // Refresh: the inactive list of the registry's answer (and ok: the endpoints carry another weight than before)
 	St    State  `json:"st"`
 }
 
 type Behaviour struct {
-	N     int `json:"n"`
-	Calls int `json:"calls"`
+	N     int   `json:"n"`    // endpoints (scripted servers) the registry may ever name
+	Reg0  []int `json:"reg0"` // the endpoints the registry names at first (absent: all)
+	Calls int   `json:"calls"`
 	// Overlap: status checks may run while a call is in flight.  Then a healthy endpoint can sit in the probe
 	// queue (see Failover.tla, ProbesTargetBlocked) and activeEp can hold it twice; the selectors stay the
 	// reference for "in rotation" and activeEp is compared as an observation only.
 	Overlap bool `json:"overlap"`
+	// Stale: the behaviour follows the code as it is through registry answers that withdraw an endpoint while an admission for
+	// its probe is queued (Failover.tla, constant Stale).  A withdrawn endpoint that is named again and then reinstated by the
+	// probe admitted earlier is in activeEp twice (the selectors refuse duplicates): activeEp is an observation there as well.
+	Stale bool `json:"stale"`
 	// KeepAlive: the behaviour assumes client keep-alive with a 5 s interval (fodrive -keepalive-ms 5000)
 	KeepAlive bool   `json:"keepalive"`
 	Steps     []Step `json:"steps"`
@@ -143,6 +150,14 @@ type run struct {
 	b        *Behaviour
 	sp       *tars.ServantProxy
 	servers  []*server // index = model endpoint - 1
+	registry *scriptedRegistry
+	reg      []int // the registry's active list as the model has it installed (fallback choice)
+	// weightChanged: the registry has named endpoints with another weight than the one their adapters were created with.  addAliveEp
+	// takes the endpoint from the ADAPTER (old weight) while checkStatus removes from activeEp by comparing whole endpoint values
+	// taken from the registry's list (new weight): a reinstated endpoint that is blocked again stays in the activeEp slice.  The
+	// selectors (keyed by host) are not affected and calls never go there, so from then on activeEp is an observation and the
+	// selectors are the reference for "in rotation", as in the behaviours with overlapping checks.
+	weightChanged bool
 	byName   map[string]int
 	arrivals chan *arrival
 	slots    []slot
@@ -236,7 +251,15 @@ func replayOnce(idx int, b *Behaviour, timeoutMode bool, tms int, attempt int64)
 			forgetConns(s.name())
 		}
 	}()
-	comm := tars.NewCommunicator(tars.Registrar(registryFor(r.servers)))
+	if b.Reg0 == nil {
+		for i := 1; i <= b.N; i++ {
+			b.Reg0 = append(b.Reg0, i)
+		}
+	}
+	r.reg = b.Reg0
+	r.registry = registryFor(r.servers, b.Reg0, int64(idx)*104729+attempt)
+	defer r.registry.retire()
+	comm := tars.NewCommunicator(tars.Registrar(r.registry))
 	obj := fmt.Sprintf("Verif.Failover%d.Obj%d", idx, atomic.AddInt64(&objSeq, 1))
 	r.sp = tars.NewServantProxy(comm, obj)
 	if timeoutMode {
@@ -245,12 +268,12 @@ func replayOnce(idx int, b *Behaviour, timeoutMode bool, tms int, attempt int64)
 		r.sp.TarsSetTimeout(3000)
 	}
 	reg := tars.VerifFailoverRegistry(r.sp)
-	if len(reg) != b.N {
-		res.Outcome, res.Why = "error", fmt.Sprintf("manager has %d registry endpoints, want %d", len(reg), b.N)
+	if len(reg) != len(b.Reg0) {
+		res.Outcome, res.Why = "error", fmt.Sprintf("manager has %d registry endpoints, want %d", len(reg), len(b.Reg0))
 		return res
 	}
 	for i, name := range reg {
-		if r.byName[name] != i+1 {
+		if r.byName[name] != b.Reg0[i] {
 			res.Outcome, res.Why = "error", fmt.Sprintf("registry order: position %d is %s", i, name)
 			return res
 		}
@@ -263,8 +286,8 @@ func replayOnce(idx int, b *Behaviour, timeoutMode bool, tms int, attempt int64)
 		if b.KeepAlive {
 			init.H[i].AKeep = capKeep
 		}
-		init.Ac = append(init.Ac, i+1)
 	}
+	init.Ac, init.Rg = b.Reg0, b.Reg0
 	if f, e, g := r.compare(&init, true); f != "" {
 		return res.divergedAt(-1, "Init", f, e, g, "initial state")
 	}
@@ -285,6 +308,11 @@ func replayOnce(idx int, b *Behaviour, timeoutMode bool, tms int, attempt int64)
 			f, e, g, why = r.doCallDone(i, st)
 		case "Down", "Up":
 			f, e, g, why = r.doSetUp(i, st)
+		case "Refresh":
+			if why = r.doRefresh(i, st); why != "" {
+				res.Outcome, res.Why, res.Step = "error", why, i
+				return res
+			}
 		case "Check":
 			tars.VerifFailoverCheckStatus(r.sp)
 			r.stats["checks"]++
@@ -315,6 +343,9 @@ func replayOnce(idx int, b *Behaviour, timeoutMode bool, tms int, attempt int64)
 			if f != "" {
 				return res.divergedAt(i, st.A, f, e, g, "state after the step differs from the model's")
 			}
+		}
+		if st.St.Rg != nil {
+			r.reg = st.St.Rg
 		}
 		res.StepsDone = i + 1
 	}
@@ -469,6 +500,34 @@ func (r *run) doSetUp(i int, st *Step) (field, exp, got, why string) {
 	return "", "", "", ""
 }
 
+// doRefresh: the registry answers with new lists from now on; the step is over when the manager's refresher has asked it and
+// has finished acting on the answer.  The refresher is one goroutine: its NEXT question to this registry comes after the
+// refresh that got the new answer has returned.  (Returns a harness problem, "" if none; the state is compared by the caller.)
+func (r *run) doRefresh(i int, st *Step) string {
+	for _, e := range append(append([]int{}, st.Cands...), st.Ina...) {
+		if e < 1 || e > r.b.N {
+			return "no such endpoint in the registry's answer"
+		}
+	}
+	n0 := r.registry.answer(st.Cands, st.Ina, st.Ok)
+	deadline := time.Now().Add(3 * time.Second)
+	for r.registry.asked() < n0+2 {
+		if time.Now().After(deadline) {
+			return "the manager's refresher did not ask the registry twice within 3 s"
+		}
+		time.Sleep(200 * time.Microsecond)
+	}
+	r.stats["refreshes"]++
+	if len(st.Cands) == 0 {
+		r.stats["refreshes_empty_answer"]++
+	}
+	if st.Ok && len(st.Cands) > 0 {
+		r.stats["refreshes_other_weight"]++
+		r.weightChanged = true
+	}
+	return ""
+}
+
 // doRefused: a call that the model routes to an endpoint whose server does not listen.  The real call must be attempted there
 // (the dial error names that endpoint's address, the send counter of its adapter moves) and fail at once; the state after the
 // step -- in particular the failure counters -- is compared like after any other step.
@@ -580,8 +639,14 @@ func (r *run) doRefused(i int, st *Step) (field, exp, got, why string, trunc boo
 func (r *run) steer(st *Step, code uint32) uint32 {
 	want := r.name(st.E)
 	if len(st.St.Ac) == 0 { // nothing in rotation: the random fallback decides
-		for s := int64(1); s < 4096; s++ {
-			if rand.New(rand.NewSource(s)).Intn(r.b.N) == st.E-1 {
+		pos := -1 // the fallback draws an index into the registry's active list as installed (host order = endpoint order)
+		for k, e := range r.reg {
+			if e == st.E {
+				pos = k
+			}
+		}
+		for s := int64(1); pos >= 0 && s < 4096; s++ {
+			if rand.New(rand.NewSource(s)).Intn(len(r.reg)) == pos {
 				tars.VerifFailoverSeedFallback(r.sp, s)
 				break
 			}
@@ -712,6 +777,16 @@ func (r *run) compare1(m *State, full bool) (field, exp, got string) {
 		created = append(created, r.byName[name])
 	}
 	sort.Ints(created)
+	if m.Rg != nil {
+		regNames := tars.VerifFailoverRegistry(r.sp)
+		regIdx := []int{}
+		for _, n := range regNames {
+			regIdx = append(regIdx, r.byName[n])
+		}
+		if !eqInts(regIdx, m.Rg) {
+			return "registry", fmt.Sprintf("registry's active list as installed %v", m.Rg), fmt.Sprint(regIdx)
+		}
+	}
 	if !eqInts(created, m.Cr) {
 		return "created", fmt.Sprint(m.Cr), fmt.Sprint(created)
 	}
@@ -768,8 +843,10 @@ func (r *run) compare1(m *State, full bool) (field, exp, got string) {
 	if dup {
 		r.obs = append(r.obs, "obs_duplicate_in_activeEp")
 	}
-	if !eqInts(act, m.Ac) && r.b.Overlap {
+	if !eqInts(act, m.Ac) && (r.b.Overlap || r.b.Stale) {
 		r.obs = append(r.obs, "obs_activeEp_differs_from_selectors")
+	} else if !eqInts(act, m.Ac) && r.weightChanged {
+		r.obs = append(r.obs, "obs_activeEp_differs_from_selectors_after_weight_change")
 	} else if !eqInts(act, m.Ac) {
 		return "active", fmt.Sprintf("in rotation %v", m.Ac), fmt.Sprintf("activeEp %v", act)
 	}
